@@ -19,7 +19,7 @@ CLAIMED = {
    technique="bounded model checking of compiled code (Kani/CBMC SAT), twin instances, symbolic signal"),
  "C06": dict(cat="model_checking", ref="DESIGN.md sections 5 C06, 11",
    text="Index-signal observation: with Linear interpolation every output value IS its evaluation instant. After 2 warm-up calls a ratio change (k/32 grid quick, every f64 thorough; ramp symbolic) and the following chunk: instants strictly increasing, spacing within [1/old,1/new], stepped change immediate, ramp monotone, every read window inside supplied input (probe checks each tap on the line); the chunk after a ramp runs at exactly 1/new.",
-   note="FastFixedOut and SincFixedOut(+Probe(8,2)) chunk 3 in the quick tier, FixedIn types and chunk 20 thorough; recorded finding F6 (region ramp_pending_sinc: input need from mean ratio vs advance by mean reciprocal); tolerance 2^-36 on instants",
+   note="FastFixedOut and SincFixedOut(+Probe(8,2)) chunk 3 in the quick tier, FixedIn types and chunk 20 thorough; recorded finding F6 (region ramp_down_sinc: input need from mean ratio vs advance by mean reciprocal); tolerance 2^-36 on instants",
    technique="bounded model checking of compiled code (Kani/CBMC SAT) with index-signal observation and probing interpolator"),
  "C07": dict(cat="model_checking", ref="DESIGN.md sections 5 C07, 11",
    text="State bound that implies no drift, on explored prefixes: constant ratio (symbolic, set once): spacing across chunk boundaries equals 1/r and the lag supplied-minus-evaluated stays within filter+1/r+3 (FastFixedOut; FastFixedIn at slow ratios 1/r>7); synchronous types: 0 <= in*rate_out - out*rate_in < one block after every call (== 0 for FixedInOut), FixedInOut block sizes exact/smallest, for concrete configurations incl. block > chunk.",
